@@ -4,6 +4,7 @@ From Coq Require Import ZArith List.
 From Verif Require Import Lib.Params Lib.Octets Spec.Edwards Model.Outcome Model.Utils
   Model.BabyJub Model.Eddsa Proofs.OctetsProofs Proofs.UtilsProofs Proofs.CompressProofs
   Proofs.EddsaCodecProofs.
+From Verif Require Proofs.GapCodec.
 From Verif Require Gen.BigIntRoutines Proofs.BigIntEqUtils Proofs.BigIntEqCodec.
 Local Open Scope Z_scope.
 
@@ -119,6 +120,28 @@ Proof.
         (conj BigIntEqCodec.gen_babyjub_PublicKey_UnmarshalText_eq BigIntEqCodec.gen_babyjub_DecompressSig_eq))))))).
 Qed.
 
+(* exact acceptance sets of the text decoders *)
+Theorem C15_hexdecode_accepts_iff : forall h,
+  (exists b, HexDecode h = Ok b) <->
+  Nat.even (length (strip_0x h)) = true /\ Forall is_hex_char (strip_0x h).
+Proof. exact GapCodec.HexDecode_accepts_iff. Qed.
+
+Theorem C15_pk_unmarshal_ok_iff : forall h pk,
+  PkUnmarshalText h = Ok pk <->
+  oc pk /\ can pk /\ length (strip_0x h) = 64%nat /\ Forall is_hex_char (strip_0x h) /\
+  hex_decode (strip_0x h) = Some (PkCompress pk).
+Proof. exact GapCodec.PkUnmarshalText_ok_iff'. Qed.
+
+Theorem C15_decompresssig_ok_iff : forall h R8 Sv,
+  DecompressSig h = Ok (R8, Sv) <->
+  oc R8 /\ can R8 /\ 0 <= Sv < 2 ^ 256 /\ length (strip_0x h) = 128%nat /\
+  Forall is_hex_char (strip_0x h) /\ hex_decode (strip_0x h) = Some (SigCompress (R8, Sv)).
+Proof. exact GapCodec.DecompressSig_ok_iff'. Qed.
+
+(* BigIntLEBytes is lossy outside [0, 2^256): it drops the sign and truncates *)
+Theorem C15_lebytes_truncates : forall v, 0 <= v -> BigIntLEBytes v = BigIntLEBytes (v mod 2 ^ 256).
+Proof. exact GapCodec.BigIntLEBytes_truncates. Qed.
+
 Print Assumptions C15_le_roundtrip.
 Print Assumptions C15_hexdecodeinto_ok_iff.
 Print Assumptions C15_sig_roundtrip.
@@ -129,3 +152,5 @@ Print Assumptions C15_sig_scan_value.
 Print Assumptions C15_sig_scan_ok_iff.
 Print Assumptions C15_total.
 Print Assumptions C15_model_is_the_source.
+Print Assumptions C15_pk_unmarshal_ok_iff.
+Print Assumptions C15_decompresssig_ok_iff.
